@@ -56,6 +56,25 @@ def one_case(run, driver, rng, reuse=False, given=None):
                 for c in ("results_dem", "results_gop", "results_turnout"):
                     e.cur.loc[i, c] = int(e.cur.loc[i, c] * f)
         estimands = rng.choice([["turnout"], ["dem"], ["gop"], ["turnout", "dem"], ["dem", "turnout"], ["gop", "dem", "turnout"]])
+        shape = rng.random()
+        if shape < 0.25:
+            # baselines need not be whole numbers (re-districted / apportioned baselines): quarters, exact in binary64
+            for c in ("baseline_dem", "baseline_gop", "baseline_turnout"):
+                e.pre[c] = e.pre[c].astype(float) + [rng.choice([0, 0.25, 0.5, 0.75]) for _ in range(len(e.pre))]
+        elif shape < 0.45:
+            # units of very different sizes: two very large units and a handful of tiny ones among the reporting units
+            ids = list(e.pre.index[:n_rep])
+            rng.shuffle(ids)
+            for j, i in enumerate(ids[:2] + ids[2:2 + rng.randint(2, 6)]):
+                f = 3000 if j < 2 else None
+                for c in ("baseline_dem", "baseline_gop", "baseline_turnout"):
+                    old = int(e.pre.loc[i, c])
+                    new = old * f if f else rng.randint(0, 5)
+                    e.pre.loc[i, c] = new
+                    rc = c.replace("baseline_", "results_")
+                    k = e.cur.index[e.cur["geographic_unit_fips"] == e.pre.loc[i, "geographic_unit_fips"]]
+                    if len(k):
+                        e.cur.loc[k[0], rc] = int(round((new + 1) * (int(e.cur.loc[k[0], rc]) + 1) / (old + 1)))
     case = {"election": e.describe(), "estimands": estimands, "reuse_frames": reuse}
     calls = []
     C.use_repo()
@@ -119,7 +138,7 @@ def one_case(run, driver, rng, reuse=False, given=None):
         non_ids = [u for u in ud.index if ud.loc[u, "reporting"] == 0 and ud.loc[u, "unit_category"] == "expected"]
         rw = []
         for u in rep_ids:
-            b = Fraction(int(base.loc[u, f"baseline_{est}"])) + 1
+            b = C.frac(float(base.loc[u, f"baseline_{est}"])) + 1
             r = (Fraction(int(cur.loc[u, f"results_{est}"])) - b) / b
             rw.append((r, b))
         m, tie = spec_m(rw)
@@ -143,12 +162,12 @@ def one_case(run, driver, rng, reuse=False, given=None):
                 continue
         ops = [{"op": "conf.wmed", "rw": [[C.rat(r), C.rat(w)] for r, w in rw]}]
         for u in non_ids:
-            ops.append({"op": "conf.swing", "m": C.rat(m), "b": C.rat(int(base.loc[u, f"baseline_{est}"])),
+            ops.append({"op": "conf.swing", "m": C.rat(m), "b": C.rat(C.frac(float(base.loc[u, f"baseline_{est}"]))),
                         "part": C.rat(int(cur.loc[u, f"results_{est}"]))})
         outs = driver.run(ops) if driver else None
         for j, u in enumerate(non_ids):
             got = float(ud.loc[u, f"pred_{est}"])
-            b = Fraction(int(base.loc[u, f"baseline_{est}"]))
+            b = C.frac(float(base.loc[u, f"baseline_{est}"]))
             part = Fraction(int(cur.loc[u, f"results_{est}"]))
             x = max((1 + m) * (b + 1), part)
             d = abs(x * 2 - round(x * 2))
